@@ -22,7 +22,7 @@ pub fn iterate_all(out: &mut Outcome, m: &Model, cfg: &Config, tagged: bool, wha
         return if out.failed() { None } else { Some(BTreeSet::new()) };
     }
     let mut brancher = make_brancher(&cfg.br, &b.solver, &b.xs);
-    let mut t = Budget::for_model(m);
+    let mut t = Budget::for_iteration(m, &cfg.opts);
     let mut seen = BTreeSet::new();
     let mut it = b.solver.get_solution_iterator(&mut brancher, &mut t);
     loop {
@@ -494,7 +494,7 @@ pub fn run_c18(case: &Case) -> Outcome {
             return o;
         }
         let mut brancher = make_brancher(&cfg.br, &b.solver, &b.xs);
-        let mut t = Budget::for_model(m);
+        let mut t = Budget::for_iteration(m, &cfg.opts);
         let mut seen = BTreeSet::new();
         let mut it = b.solver.get_solution_iterator(&mut brancher, &mut t);
         loop {
